@@ -51,11 +51,28 @@ def run(ctx):
     rep.check(r1, bool(eq) and bool(ne) and bool(known), 'data:tests-present', 'cookie==ack-1 test: %s, already-validated test: %s' % (bool(eq), bool(known)), tcp.loc(dh))
     addb = [bi for bi, t in tcp.calls(r'^proto::tcb::add_tcb$')]
     getb = [bi for bi, t in tcp.calls(r'^proto::tcb::get_tcb$')]
-    off = tcp.must_pass(eq, addb)
-    rep.check(r1, len(addb) == 1 and not off, 'data:add_tcb-validated', 'add_tcb reachable without cookie == ack-1: %s' % bool(off), tcp.loc(addb[0]) if addb else '')
+    # path-sensitive: on every path state reaching the site the comparison cookie == ack-1 was established
+    def pair(a, b):
+        return is_cookie(a) and is_ack_minus_one(tcp, b)
+
+    def cmp_key(k):
+        return isinstance(k, tuple) and k[0] == 'bin' and k[1] in ('Eq', 'Ne') and (pair(k[2], k[3]) or pair(k[3], k[2]))
+
+    def known_true(facts):
+        for (k, r_, c_) in facts:
+            kk = peel(k, unwraps=False)
+            if is_call(kk, r'^proto::tcb::is_tcb_set$') and is_cookie(kk[2][0]) and ((r_ == '!=' and c_ == 0) or (r_ == '==' and c_ == 1)):
+                return True
+        return False
+
+    def gen_failed(facts):
+        return any(k == ('discr', gexpr) and ((r_ == '==' and c_ != 0) or (r_ == '!=' and c_ == 0)) for (k, r_, c_) in facts)
+    at = path_states_at(tcp, addb + getb, lambda k: True, stable_fn=cmp_key)
+    off = [b for b in addb if not at[b] or any(cmp_fact(fs, pair) != 'eq' for fs in at[b])]
+    rep.check(r1, len(addb) == 1 and not off, 'data:add_tcb-validated', 'add_tcb reachable on a path state without cookie == ack-1: %s (%d path states)' % (bool(off), sum(len(at[b]) for b in addb)), tcp.loc(addb[0]) if addb else '')
     for b in addb:
         rep.check(r1, is_cookie(tcp.argv(b, 0)), 'data:add_tcb-key', 'add_tcb(%s)' % short(tcp.argv(b, 0))[:80], tcp.loc(b))
-    off = tcp.must_pass(eq + known + err, getb)
+    off = [b for b in getb if not at[b] or any(not (cmp_fact(fs, pair) == 'eq' or known_true(fs) or gen_failed(fs)) for fs in at[b])]
     rep.check(r1, len(getb) == 1 and not off, 'data:app-layer-validated', 'get_tcb/application layer reachable on a path that is neither already-validated nor cookie==ack-1: %s' % bool(off), tcp.loc(getb[0]) if getb else '')
     # reply construction on the data arm also lies behind validation
     spd = [b for b in some_points(tcp)]
@@ -128,16 +145,13 @@ def run(ctx):
         for b in ow:
             v = peel(tcp.argv(b, 0), unwraps=False)
             on_some = bool(some_t) and some_t[0] in dom[b]
+            segs = buf_segments(v)
             if on_some:
-                ok = is_call(v, r'\[T\]>::concat$')
-                if ok:
-                    arr = peel(v[2][0], unwraps=False)
-                    ok = isinstance(arr, tuple) and arr[0] == 'agg' and len(arr[2]) == 2 and \
-                        is_call(peel(arr[2][0], unwraps=False), r'from_elem$') and is_call(peel(peel(arr[2][0], unwraps=False)[2][1]), r'minimum_packet_size$') and \
-                        any(isinstance(x, tuple) and x[0] == 'modby' and x[1] == 'proto::tcb::get_tcb' for x in walk(arr[2][1]))
+                ok = len(segs) == 2 and header_only(segs[:1], r'minimum_packet_size$') and segs[1][0] == 'data' and \
+                    any(isinstance(x, tuple) and x[0] == 'modby' and x[1] == 'proto::tcb::get_tcb' for x in walk(segs[1][1]))
                 rep.check(r2, ok, 'data:buffer-with-payload', 'buffer = %s' % short(v)[:140], tcp.loc(b))
             else:
-                ok = is_call(v, r'from_elem$') and const_val(v[2][0]) == 0 and is_call(peel(v[2][1]), r'minimum_packet_size$')
+                ok = header_only(segs, r'minimum_packet_size$')
                 rep.check(r2, ok, 'data:buffer-header-only', 'buffer = %s' % short(v)[:100], tcp.loc(b))
     # closure stores proto::repl's result into payload_repl
     for cid in F.closures_of.get('layer_4::tcp::repl', []):
@@ -172,7 +186,7 @@ def run(ctx):
         rep.check(r2, not [c for c in hit if c in TABLE_FNS + ['proto::repl']], 'finack:stateless', 'FIN|ACK arm touches no state', tcp.loc(fh))
 
     r4 = rep.rule('C07-R4', 'validated flows stay validated: nothing ever removes or clears connection-table entries', floor=1)
-    from rules.c09 import table_ops, ALLOWED_NONGROWTH, GROWTH
+    from rules.c09 import table_ops, ALLOWED_NONGROWTH, GROWTH, ENTRY_ABSENT_ONLY
     ops = table_ops(F)
-    bad = [(fid, n) for fid, bi, n in ops if n not in ALLOWED_NONGROWTH and n != 'insert']
+    bad = [(fid, n) for fid, bi, n in ops if n not in ALLOWED_NONGROWTH and n not in ('insert', 'entry') and n not in ENTRY_ABSENT_ONLY]
     rep.check(r4, bool(ops) and not bad, 'table-ops', 'operations on the connection table crate-wide: %s' % sorted(set(n for _, _, n in ops)))
